@@ -538,6 +538,26 @@ pub fn show_rec(r: &Result<RecoveredState, RecoveryError>) -> String {
     }
 }
 
+/// every field of the manifest object of an image
+pub fn show_manifest(img: &BTreeMap<String, Vec<u8>>) -> String {
+    match img.get(&format!("{}/manifest.json", PREFIX)) {
+        None => "man none".into(),
+        Some(b) => match serde_json::from_slice::<Manifest>(b) {
+            Err(_) => "man unparsable".into(),
+            Ok(m) => {
+                let chk = match &m.checkpoint {
+                    None => "-".to_string(),
+                    Some(c) => format!("{}:{}", c.timestamp_ms, c.last_segment_id),
+                };
+                let segs: Vec<String> = m.segments.iter().map(|s| format!("{}:{}:{}:{}:{}", s.id, s.record_count, s.size_bytes, s.min_timestamp, s.max_timestamp)).collect();
+                // the object key is derived from the id in the model: check it here
+                let keys_ok = m.segments.iter().all(|s| s.key == crate::c11::seg_key(s.id));
+                format!("man v={} rid={} next={} chk={} segs=[{}]{}", m.version, m.replica_id, m.next_segment_id, chk, segs.join(","), if keys_ok { "" } else { " KEY-NOT-DERIVED-FROM-ID" })
+            }
+        },
+    }
+}
+
 /// does the manifest of this image reference only complete objects (and parse itself)?
 pub fn refs_complete(img: &BTreeMap<String, Vec<u8>>) -> bool {
     match img.get(&format!("{}/manifest.json", PREFIX)) {
@@ -813,6 +833,11 @@ impl Proc {
         };
         self.log(out, format!("CIFNEEDED {} {} {} {} {} {} {}", c.target, c.min, c.maxper, c.now, c.ttl.as_millis(), max_segments, sz), format!("{} calls={}", ans, calls));
         r
+    }
+    /// every field of the stored manifest (op line MAN)
+    pub fn man(&mut self, out: &mut Out) {
+        let a = show_manifest(&self.store.image());
+        self.log(out, "MAN".into(), a);
     }
     pub async fn rec(&mut self, out: &mut Out) -> Result<RecoveredState, RecoveryError> {
         let img = self.store.image();
@@ -1239,6 +1264,7 @@ async fn case(out: &mut Out, rng: &mut Rng, corpus: Option<&str>) {
         out.violation("C12:compaction:panic", &format!("Compactor::compact panicked: {}", msg), json!({"workload": p.text}));
     }
     p.rec(out).await.ok();
+    p.man(out);
     crash_points(out, &mut p, &ups).await;
     if corpus.is_some() || rng.chance(1, 4) {
         recover_under_read_faults(out, &p, rng).await;
